@@ -38,27 +38,24 @@ func (e *CachedPointDataExtractor) Extract(point string) (*PointData, error) {
 	// example
 	// getUsers:7#User_8
 
-	if strings.Contains(point, "#") {
-		idData := strings.Split(point, "#")
-		if len(idData) == 2 {
-			id = idData[1]
-		}
+	// the id is everything behind the first #: field names and indexes contain neither # nor :, ids can
+	if hashLocation := strings.Index(point, "#"); hashLocation >= 0 {
+		id = point[hashLocation+1:]
 
 		// use the index data without the id
-		field = idData[0]
+		field = point[:hashLocation]
 	}
 	// id eq User_8
 	// field eq getUsers:7
 
-	if strings.Contains(field, ":") {
-		indexData := strings.Split(field, ":")
-		indexValue, err := strconv.ParseInt(indexData[1], 0, 32)
+	if colonLocation := strings.Index(field, ":"); colonLocation >= 0 {
+		indexValue, err := strconv.ParseInt(field[colonLocation+1:], 0, 32)
 		if err != nil {
 			return nil, err
 		}
 
 		index = int(indexValue)
-		field = indexData[0]
+		field = field[:colonLocation]
 	}
 
 	// field eq getUsers
